@@ -22,15 +22,6 @@ func drawC14(rt *rapid.T) *Case {
 	return &Case{Path: r.Text, AST: p, Texts: r.Steps, Doc: d, DocKind: g.DocKind, UseNumber: rapid.Bool().Draw(rt, "usenumber"), Funcs: true}
 }
 
-func argIn(list []interface{}, v interface{}) bool {
-	for _, x := range list {
-		if reflect.DeepEqual(x, v) {
-			return true
-		}
-	}
-	return false
-}
-
 // compareCallLogs compares the recorder's log with SPEC's expected calls.
 // dollarOperandFuncs lists the functions written inside "$"-rooted filter operands (at any
 // nesting). How often such an operand is evaluated is not pinned (the library evaluates it
@@ -75,6 +66,29 @@ func dollarOperandFuncs(p *gen.Path) map[string]bool {
 }
 
 func compareCallLogs(rec *Recorder, res *spec.Result, st *Stats, ast *gen.Path) string {
+	return compareCallLogsEq(rec, res, st, ast, reflect.DeepEqual)
+}
+
+func compareCallLogsEq(rec *Recorder, res *spec.Result, st *Stats, ast *gen.Path, same func(a, b interface{}) bool) string {
+	argIn := func(list []interface{}, v interface{}) bool {
+		for _, x := range list {
+			if same(x, v) {
+				return true
+			}
+		}
+		return false
+	}
+	listSame := func(a, b []interface{}) bool {
+		if len(a) != len(b) {
+			return false
+		}
+		for i := range a {
+			if !same(a[i], b[i]) {
+				return false
+			}
+		}
+		return true
+	}
 	type exp struct {
 		args []interface{}
 		ctx  string
@@ -102,12 +116,12 @@ func compareCallLogs(rec *Recorder, res *spec.Result, st *Stats, ast *gen.Path) 
 		switch {
 		case e.ctx == "main":
 			st.Class("calls:main-compared")
-			if !reflect.DeepEqual(got, e.args) && !(len(got) == 0 && len(e.args) == 0) {
+			if !listSame(got, e.args) {
 				return fmt.Sprintf("function %s was called with %s, expected %s", fn, JSONString(got), JSONString(e.args))
 			}
 		case e.ctx == "@" && e.pure:
 			st.Class("calls:@operand-compared")
-			if !reflect.DeepEqual(got, e.args) && !(len(got) == 0 && len(e.args) == 0) {
+			if !listSame(got, e.args) {
 				return fmt.Sprintf("operand function %s was called with %s, expected %s", fn, JSONString(got), JSONString(e.args))
 			}
 		case e.ctx == "$" && e.pure:
